@@ -102,7 +102,39 @@ theorem uniqueness_reads_in_readset (s : Schema) (db1 db2 : DB) (i : Nat) (cs : 
   have _ := hrows
   exact DmlMainAux.uniqueHit_congr s db1 db2 i cs vals self hsame htomb hok1 hok2
 
+/-- **UPDATE / DELETE touch only rows that satisfy their WHERE.**  Whatever index the statement's plan
+chooses (`Plan.planIndex`: primary key, or the secondary index with the longest equality-covered prefix)
+and whatever key window it derives from the WHERE, the rows the statement reads are rows of the table —
+each at most once — and the WHERE is true on every one of them. -/
+theorem dml_reads_only_matching_rows (s : Schema) (rows hit : List Row) (p : Pred)
+    (h : selectRows s rows (some p) = .ok hit) :
+    (∃ l : List Row, l.Perm rows ∧ hit.Sublist l) ∧ ∀ r ∈ hit, keeps p r = .ok true :=
+  DmlMainAux.selectRows_sound h
+/- Full statement (FALSE of the code, see `delete_where_negzero_misses_poszero`): the statement reads ALL
+   rows satisfying the WHERE, `hit.Perm (rowsWhere p rows)`.  It holds in the fragment of C11
+   (`plan_independent_fragment`: constants and stored values without −0.0 / NaN), because there the key
+   window contains every row the predicate accepts. -/
+
 -- ---------------------------------------------------------------- witnesses of the negation
+
+def wSchemaF : Schema :=
+  { cols := [{ col := ⟨.float64, 8⟩, notNull := false, autoInc := false },
+             { col := ⟨.integer, 8⟩, notNull := false, autoInc := false }],
+    pk := [0], idx := [], check := none }
+
+/-- **Finding (R13 / C15 F5 in DML).** `DELETE FROM t WHERE id = -0.0` on a FLOAT key does not read the
+row whose key is +0.0 although the WHERE is true on it (`Float64.Compare` = 0): the scan window is made
+of key bytes, and the two zeros encode differently.  Likewise a row with key −0.0 can be inserted next to
+one with key +0.0 (two live rows with equal keys). -/
+theorem delete_where_negzero_misses_poszero :
+    keeps (.cmp 0 .eq false (.float 0x8000000000000000)) [.float 0, .int 10] = .ok true ∧
+    selectRows wSchemaF [[.float 0, .int 10]] (some (.cmp 0 .eq false (.float 0x8000000000000000))) = .ok [] ∧
+    (∃ db db', exec wSchemaF {} (.ins .insert [0, 1] [[.float 0, .int 10]]) = .ok db ∧
+      exec wSchemaF db (.ins .insert [0, 1] [[.float 0x8000000000000000, .int 5]]) = .ok db' ∧
+      db'.rows = [[.float 0, .int 10], [.float 0x8000000000000000, .int 5]] ∧
+      sqlCompare (.float 0) (.float 0x8000000000000000) = .ok 0) := by
+  refine ⟨by decide, by decide, ?_⟩
+  exact ⟨_, _, rfl, rfl, rfl, by decide⟩
 
 def wSchemaNN : Schema :=
   { cols := [{ col := ⟨.integer, 8⟩, notNull := false, autoInc := false },
